@@ -491,4 +491,76 @@ theorem runFrom_survivors (c : Cfg) (s : St) (ops : List Op) (hi : Inv s) (hs : 
         simp only [hl1, hh1, hhalt] at hl hh
         exact ih _ (step_inv c s op hi) (step_surv c s op hi hs hl1 hh1) (by simpa using hl) (by simpa using hh) hk
 
+
+/-! ### STOP of a basic task terminates what it can reach -/
+
+@[simp] theorem ownEnd_ne_running (b : Beh) : b.ownEnd ≠ Child.running := by cases b <;> decide
+
+/-- what is running is known to the task and has not been reaped -/
+structure Proc (s : St) : Prop where
+  nocmd : s.kind = .basic → s.active = true → s.cmd = false → s.child ≠ .running
+  reap : s.reaped = true → s.child ≠ .running
+
+theorem step_proc (c : Cfg) (s : St) (op : Op) (h : Proc s) : Proc (step c s op).1 := by
+  obtain ⟨p1, p2⟩ := h
+  cases op <;> simp only [step, spawn, stopBasic, ctlTransition, reapCtl, escalate]
+  all_goals (repeat' split)
+  all_goals (refine ⟨?_, ?_⟩ <;> simp_all)
+
+theorem init_proc (c : Cfg) (k : Kind) (b : Beh) : Proc (init c k b).1 := by
+  cases k <;> simp only [init, base]
+  all_goals (repeat' split)
+  all_goals (refine ⟨?_, ?_⟩ <;> simp_all)
+
+/-- with the repaired ensureBasicTaskKilled no request to a basic task crashes or blocks the executor -/
+theorem step_basic_not_halts (c : Cfg) (hc : c.stopNilSafe = true) (s : St) (hk : s.kind = .basic) (op : Op) :
+    (step c s op).2.halts = false := by
+  cases op <;> simp only [step, spawn, stopBasic, ctlTransition, reapCtl, escalate]
+  all_goals (repeat' split)
+  all_goals simp_all [Res.halts, Kind.basicLike]
+
+/-- One step keeps "a STOP was answered, no child started since ⇒ nothing alive", unless the STOP arrives in a
+    state of `stopSpares`. -/
+theorem step_stopFlag (c : Cfg) (hc : c.stopNilSafe = true) (s : St) (hk : s.kind = .basic) (op : Op)
+    (hp : Proc s) (hn : stopSpares s op = false) (flag : Bool) (hf : flag = true → s.alive = false)
+    (h : stopFlag flag op (step c s op).2 = true) : (step c s op).1.alive = false := by
+  obtain ⟨p1, p2⟩ := hp
+  revert h
+  cases op <;> simp only [step, spawn, stopBasic, ctlTransition, reapCtl, escalate]
+  all_goals (repeat' split)
+  all_goals (cases flag <;> simp_all [stopFlag, stopSpares, St.alive, Kind.basicLike])
+
+theorem neverFrom_dead (c : Cfg) (P : St → Op → Bool) (s : St) (h : s.loop = false) (ops : List Op) :
+    neverFrom c P s ops = true := by
+  cases ops <;> simp [neverFrom, h]
+
+theorem stopFlag_dead (flag : Bool) (op : Op) : stopFlag flag op .dead = flag := by
+  cases op <;> rfl
+
+theorem runFrom_stopped (c : Cfg) (hc : c.stopNilSafe = true) (s : St) (hk : s.kind = .basic) (hp : Proc s)
+    (flag : Bool) (hf : flag = true → s.alive = false) (ops : List Op)
+    (hn : neverFrom c stopSpares s ops = true) :
+    (runFrom c s ops).halted = false ∧
+      (stoppedFrom flag ops (runFrom c s ops).res = true → (runFrom c s ops).st.alive = false) := by
+  induction ops generalizing s flag with
+  | nil =>
+    simp only [runFrom, stoppedFrom, finish_alive]
+    exact ⟨trivial, hf⟩
+  | cons op ops ih =>
+    simp only [runFrom]
+    split
+    · rename_i hloop
+      have hloop' : s.loop = false := by simpa using hloop
+      have := ih s hk hp flag hf (neverFrom_dead c _ s hloop' ops)
+      simpa [stoppedFrom, stopFlag_dead] using this
+    · rename_i hloop
+      have hnh := step_basic_not_halts c hc s hk op
+      simp only [neverFrom, hloop, hnh] at hn
+      have hn1 : stopSpares s op = false := by
+        cases hs : stopSpares s op <;> simp_all
+      simp only [hn1] at hn
+      simp only [hnh, Bool.false_eq_true, ↓reduceIte, stoppedFrom]
+      exact ih (step c s op).1 (by rw [step_kind]; exact hk) (step_proc c s op hp) _
+        (step_stopFlag c hc s hk op hp hn1 flag hf) (by simpa using hn)
+
 end ExecTask
